@@ -507,6 +507,11 @@ def check_C09(chk):
             for b in (range(ab) if ab <= nb else r.sample(range(ab), nb)):
                 msgs.append((flip(d['ad'], b), d['m']))
             if f['mlen'] >= 1:
+                msgs.append((d['ad'], flip(d['m'], mb - 1 - r.randint(0, 7))))      # last byte
+                msgs.append((d['ad'], flip(d['m'], r.randint(0, 7))))               # first byte
+            if f['adlen'] >= 1:
+                msgs.append((flip(d['ad'], ab - 1 - r.randint(0, 7)), d['m']))
+            if f['mlen'] >= 1:
                 msgs.append((d['ad'], d['m'][:-1]))                 # prefix
                 msgs.append((d['ad'], d['m'] + r.bytes(1)))          # extension
             msgs.append((d['ad'], d['m']))                           # exact repeat
